@@ -81,12 +81,28 @@ def run_do_handle():
     return ex, fn, res
 
 
+FRAMED_STATE = re.compile(r'Framed(Read|Write)?::(read_buffer_mut|write_buffer_mut|from_parts|into_parts|with_capacity|map_decoder|map_encoder|decoder_mut|encoder_mut)$|FramedParts::')
+
+
+def framed_state_touched(r):
+    """a call that reaches into a framed stream's buffers/codec state: the decoder of a stream must see that stream's bytes only (a buffer carried
+    over from another stream, or bytes left over from this one handed on, make one request's outcome depend on another's)"""
+    for e in r.events:
+        if e.kind == 'call' and FRAMED_STATE.search(str(e.name)):
+            return str(e.name)
+    return None
+
+
 def ob_do_handle(report, prop):
     def body(ob):
         ex, fn, res = run_do_handle()
         hf = struct_fields(RH, 'BiStreamRequestHandler')
         seen = set()
         for r in res:
+            fs_ = framed_state_touched(r)
+            if fs_:
+                return viol(prop, ob, [ex], f'the stream handler reaches into the framed stream\'s internal buffer/codec state ({fs_.split("::")[-1]}): what one request stream decodes '
+                            'may then depend on bytes of another stream', 'handle-framed-state', path_summary(r), len(res))
             if r.tag in ('panic', 'diverge'):
                 # `response.expect("Infallible")` on the service result
                 if any('Infallible' in repr(e) or 'expect' in str(e.name) for e in r.events[-4:]):
@@ -359,3 +375,47 @@ def ob_rpc_not_detached(report, prop):
         ob.done([ex], 'held', '', {'bodies': checked[:20], 'paths': total}, paths=total)
     return guarded(report, 'rpc_lives_in_callers_future', 'no method of Peer (nor any future it returns) spawns a task: an RPC is driven only by the future its caller holds, so dropping that '
                    'future drops both stream halves (RESET / STOP_SENDING reach the remote)', ['Peer::*'], {'inline_depth': 2}, body)
+
+
+def ob_send_stream_transparent(report, prop):
+    """anemo's SendStream wrapper adds nothing to the byte stream: each poll_write hands exactly the caller's buffer to the quinn stream once and
+    reports exactly what quinn reports (a wrapper that loops over partial writes and then reports Pending has written a prefix the caller will
+    write again: the receiver sees duplicated bytes inside a frame of the right length)"""
+    def body(ob):
+        def m_inner(ex_, p, call, k):
+            buf = call.args[2]
+            p.events.append(Event('inner-write', 'quinn::SendStream::poll_write', (ex_.deref(p, call.args[0]), buf)))
+            k(p, Sym(f'inner_write{p.seq("iw")}', 'Poll<Result<usize, quinn::WriteError>>'))
+
+        def m_map_err(ex_, p, call, k):
+            v = call.args[0]
+            k(p, Sym(f'map_err({vname(v)})', call.retty).with_ov('from', ('Poll::map_err', (v,))))
+        ex = e2.executor('anemo', [(r'quinn::SendStream::poll_write$|<quinn::SendStream as (\w+::)*AsyncWrite>::poll_write$', m_inner),
+                                   (r'Poll::<.*>::map_err(::<.*>)?$|Poll::map_err$', m_map_err)], max_depth=2, unroll=3)
+        fn = find_method(ex.prog, 'SendStream', 'poll_write', trait='AsyncWrite', file_re=r'anemo/src/connection\.rs')
+        p = Path()
+        p.mem[('H', 'ss', 'SendStream')] = Sym('ss', 'connection::SendStream')
+        p.mem[('H', 'buf', '[u8]')] = Sym('buf', '[u8]')
+        res = ex.run(fn, [Ptr(('H', 'ss', 'SendStream'), (), True), Sym('cx', 'Context'), Ptr(('H', 'buf', '[u8]'))], p)
+        n = 0
+        for r in res:
+            if r.tag == 'loop-bound':
+                return viol(prop, ob, [ex], 'SendStream::poll_write loops over the inner stream: after a partial write it can report Pending (or an error) for bytes that were '
+                            'already handed to QUIC; the caller writes them again and the peer receives a frame with duplicated content', 'sendstream-loop', path_summary(r), len(res))
+            if r.tag != 'return':
+                return viol(prop, ob, [ex], f'SendStream::poll_write can {r.tag}', 'sendstream-abnormal', path_summary(r), len(res))
+            iw = [e for e in r.events if e.kind == 'inner-write']
+            if len(iw) != 1:
+                return viol(prop, ob, [ex], f'SendStream::poll_write calls the QUIC stream {len(iw)} times per call: partial progress of an earlier call is lost when a later one is Pending '
+                            '(the bytes are written twice)', 'sendstream-multi-write', path_summary(r), len(res))
+            b = iw[0].args[1]
+            if not (isinstance(b, Ptr) and b.key == ('H', 'buf', '[u8]') and not b.projs):
+                return viol(prop, ob, [ex], f'SendStream::poll_write hands {vrepr(b)[:60]} to the QUIC stream, not the caller\'s buffer', 'sendstream-buffer', path_summary(r), len(res))
+            if not derives_from(r.ret, lambda v: isinstance(v, Sym) and v.name.startswith('inner_write')):
+                return viol(prop, ob, [ex], f'SendStream::poll_write reports {vrepr(r.ret)[:80]}, not what the QUIC stream reported', 'sendstream-result', path_summary(r), len(res))
+            n += 1
+        if not n:
+            return ob.done([ex], 'inconclusive', 'no path', paths=len(res))
+        ob.done([ex], 'held', '', {'paths': len(res)}, paths=len(res))
+    return guarded(report, 'send_stream_write_is_transparent', '<SendStream as AsyncWrite>::poll_write: exactly one quinn poll_write per call, with the caller\'s whole buffer, result passed through '
+                   '(error type converted); so the bytes the framing layer writes are the bytes QUIC carries, once', ['<connection::SendStream as AsyncWrite>::poll_write'], {'loop_unroll': 3}, body)
